@@ -176,6 +176,85 @@ Proof. exact shutdown_queued_keeps_slot. Qed.
 Print Assumptions C16_shutdown_queued_keeps_slot_refuted.
 
 (* non-vacuity: concrete runs of the definitions the theorems speak about *)
+(* ---------------------------------------------------------------- in progress => slot held (order of the phases)
+   An inbound transfer is IN PROGRESS from the moment its slot is taken until the read of its stream has ended or the
+   goroutine gave up.  recv_phases early loops = the receive goroutine with the order of AcceptWithCid, ReadToEOF/Close and
+   the Release calls made explicit.  recv_phases false false is the code as it is NOW (release after the read; the
+   goroutine returns after the stream it was started for, fixes/C16-receive-goroutine-returns-after-success.diff);
+   loops = true is the code as found; early = true the ordering with the release right after AcceptWithCid. *)
+
+(* forgetting the phases of the looping goroutine gives exactly the slot events used in the theorems above (whose
+   statements quantify over all iteration lists and therefore cover the repaired goroutine as a special case) *)
+Theorem C16_phases_refine_events : forall early its,
+  (Acquire :: fst (recv_goroutine its), snd (recv_goroutine its)) =
+  (erase_phases (fst (recv_phases early true its)), snd (recv_phases early true its)).
+Proof. exact phases_erase. Qed.
+Print Assumptions C16_phases_refine_events.
+
+(* the code as it is now: Release never precedes the end of the read; while a transfer is in progress its slot is held *)
+Theorem C16_slot_held_while_in_progress : forall its,
+  slot_covers false false (fst (recv_phases false false its)) = true.
+Proof. exact recv_phases_covered. Qed.
+Print Assumptions C16_slot_held_while_in_progress.
+
+(* At no time are more inbound transfers in progress than the limit: any number of offers with any outcomes, any
+   interleaving of their phases on the real semaphore, stopped anywhere: in progress <= slots held = counter <= limit,
+   and the semaphore never panics. *)
+Theorem C16_inbound_in_progress_bounded : forall limit (itss : list (list recv_iter)) sched,
+  exists sem ts,
+    isched_run limit sched (0, map (fun its => it_start (fst (recv_phases false false its))) itss) = Ok (sem, ts) /\
+    (N.of_nat (n_inprog ts) <= sem) /\ sem = N.of_nat (n_held ts) /\ sem <= limit.
+Proof. exact inbound_in_progress_bounded_code. Qed.
+Print Assumptions C16_inbound_in_progress_bounded.
+
+(* the same for any phase lists that keep the slot while in progress (slot_covers is what the monitor evaluates on the
+   order of events observed on the implementation) *)
+Theorem C16_in_progress_bounded_general : forall limit (pss : list (list phase)) sched,
+  Forall (fun ps => slot_covers false false ps = true) pss ->
+  exists sem ts,
+    isched_run limit sched (0, map it_start pss) = Ok (sem, ts) /\
+    (N.of_nat (n_inprog ts) <= sem) /\ sem = N.of_nat (n_held ts) /\ sem <= limit.
+Proof. exact inbound_in_progress_bounded. Qed.
+Print Assumptions C16_in_progress_bounded_general.
+
+(* the ordering with "release permit fast" right after AcceptWithCid does not have the property: the predicate fails and
+   two transfers are in progress under limit 1 (so the theorems above do depend on the order) *)
+Theorem C16_early_release_refuted :
+  slot_covers false false (fst (recv_phases true false [RRead HEnqueued; RAcceptFail])) = false /\
+  exists sched sem ts,
+    isched_run 1 sched (0, map (fun its => it_start (fst (recv_phases true false its)))
+                              [[RRead HEnqueued; RAcceptFail]; [RRead HEnqueued; RAcceptFail]]) = Ok (sem, ts) /\
+    n_inprog ts = 2%nat.
+Proof. split; [exact early_release_not_covered | exact early_release_exceeds_limit]. Qed.
+Print Assumptions C16_early_release_refuted.
+
+(* CODE AS FOUND: after a successfully handled stream the goroutine did not return but accepted again on the same
+   connection id; a second stream arriving there was read (and its contents enqueued) with no slot held: a transfer in
+   progress while the counter is 0.  Without a second stream the as-found loop was fine. *)
+Theorem C16_second_stream_unslotted_refuted :
+  slot_covers false false (fst (recv_phases false true [RRead HEnqueued; RRead HEnqueued; RAcceptFail])) = false /\
+  exists sched sem ts,
+    isched_run 1 sched (0, [it_start (fst (recv_phases false true [RRead HEnqueued; RRead HEnqueued; RAcceptFail]))]) = Ok (sem, ts) /\
+    sem = 0 /\ n_inprog ts = 1%nat.
+Proof. split; [exact second_stream_not_covered | exact second_stream_exceeds]. Qed.
+Print Assumptions C16_second_stream_unslotted_refuted.
+
+Theorem C16_as_found_loop_single_stream : forall limit (itss : list (list recv_iter)) sched,
+  Forall (fun its => single_stream its = true) itss ->
+  exists sem ts,
+    isched_run limit sched (0, map (fun its => it_start (fst (recv_phases false true its))) itss) = Ok (sem, ts) /\
+    (N.of_nat (n_inprog ts) <= sem) /\ sem = N.of_nat (n_held ts) /\ sem <= limit.
+Proof. exact inbound_in_progress_bounded_loop. Qed.
+Print Assumptions C16_as_found_loop_single_stream.
+
+(* the scenario the harness plays on the real code (stalled sender, probe, second offer), computed on the model *)
+Theorem C16_stall_scenario :
+  stall_scenario false false 1 0 = Ok (0, false, 1) /\ stall_scenario false false 3 0 = Ok (2, true, 3) /\
+  stall_scenario false false 3 2 = Ok (0, false, 1) /\ stall_scenario false false 50 49 = Ok (0, false, 1) /\
+  stall_scenario true false 1 0 = Ok (1, true, 1).
+Proof. destruct stall_scenario_code as (A & B & C & D). pose proof stall_scenario_early. repeat split; assumption. Qed.
+Print Assumptions C16_stall_scenario.
+
 Example C16_nonvacuous :
   out_events true (OGot (PWorker STalkErr)) = [Acquire; Release] /\
   out_events false (OGot (PWorker STalkErr)) = [Acquire] /\
